@@ -18,9 +18,10 @@ MANIFEST = dict(
          "generated cases, the cross-mode relations checked directly on the real outputs (library and rg CLI).",
     note="trusted: Coq kernel, extraction, OCaml driver, Rust harness; the matcher is a Section variable tabulated per "
          "case; the searcher's call protocol (prefix up to the first refusal, then finish) is assumed here and is "
-         "property C16; -o record count in line mode is a theorem (one record per submatch), in multi-line mode it is tested; --stats rendering in main.rs and the hiargs mode "
+         "property C16; -o and --vimgrep record counts are theorems in line mode (one record per submatch) and in multi-line mode (one -o record per line a submatch has content on, one --vimgrep record per submatch touching a line), and an independent count from the JSON submatches is compared with the real outputs; --stats rendering in main.rs and the hiargs mode "
          "normalisation are tested (CLI), not proved; D13 repaired by a fix: commit; known findings: "
-         "EmptyMatchAtEndOfUnterminatedLastLine (D2), MultiLineMaxCountSummary",
+         "EmptyMatchAtEndOfUnterminatedLastLine (D2), MultiLineMaxCountSummary, MultiLineOnlyMatchingDropsEmptyMatches; observation outside the "
+         "property (counted, not a finding): MultiLinePerMatchDropsEmptyMatchAtLineStart",
     technique="Coq proof over executable models + extracted-model/implementation correspondence + cross-mode oracle on "
               "real outputs",
     design="§7 C10")
@@ -29,6 +30,7 @@ KNOWN_D2 = "EmptyMatchAtEndOfUnterminatedLastLine"
 KNOWN_MLMAX = "MultiLineMaxCountSummary"
 KNOWN_MLOEMPTY = "MultiLineOnlyMatchingDropsEmptyMatches"
 KNOWN_SUMBYTES = "SummaryStatsBytesPrintedSampledBeforeOutput"
+OBS_MLPMEMPTY = "observation_MultiLinePerMatchDropsEmptyMatchAtLineStart"
 
 LINE_PATTERNS = [
     "a", "b+", "$", "^", r"\b", r"\B", "x*", "a|$", "c|$", "^$", r"\w+", "[ab]", "a.", ".", r"\s", "(?:ab)?", "b$",
@@ -41,6 +43,8 @@ ML_PATTERNS = [
     r"a$\n", r"(?s).+", r"\n\n", r"a\n?", r"\s+", r"a[^x]*b", r"\r?\n",
     # a match that ends at a line terminator followed by an assertion looking past the reported lines
     r"a\n\b", r"b\n\B", r"(?m)a\n^", r"c\n$", r"[ab]\n\b", r"\w\n(?:\b|$)", r"x\n\b",
+    # adjacent submatches, submatches spanning lines next to single-line ones, empty matches at line starts
+    r"a|b|\n", r"b\nb|a", r"b\s+a|a|b", r"(?:x|\n)*", r"[ab]?", r"(?s)a.|b", r"y?\n?",
 ]
 ALPH = b"ab xycA\t"
 
@@ -93,8 +97,15 @@ def gen_flags(rng, relations=True):
     return fl
 
 
+# patterns whose matches usually span two or more lines, often next to single-line matches
+ML_SPANNING = [r"(?s)[ab].[ab]", r"\w\n\w", r"(?s).\n.", r"\S*\n\S*", r"[ab ]\s*\n\s*[ab ]|a", r"b\nb|a", r"(?s)a.+b|x",
+               r"\w\r?\n\w|\w", r"(?s)\S.*\S"]
+
+
 def gen_pattern(rng, fl):
     pool = LINE_PATTERNS + (ML_PATTERNS * 2 if fl.get("multiline") else [])
+    if fl.get("multiline") and rng.random() < 0.25:
+        pool = ML_SPANNING
     p = rng.choice(pool)
     if rng.random() < 0.15:
         p = "(?:%s)|%s" % (p, rng.choice(pool))
@@ -109,6 +120,7 @@ def relation_modes(mx):
     return [("count", msum(0, mx=mx, ez=0)), ("cm", msum(1, mx=mx, ez=0)), ("l", msum(2, mx=mx)),
             ("L", msum(3, mx=mx)), ("q", msum(4, mx=mx)), ("q_stats", msum(4, stats=1, mx=mx)),
             ("count_stats", msum(0, stats=1, mx=mx, ez=0)), ("std", mstd(mx=mx)), ("std_o", mstd(only=1, mx=mx)),
+            ("std_pm", mstd(pm=1, pm1=1, col=1, mx=mx)),
             ("std_stats", mstd(stats=1, mx=mx)), ("json", mjson(mx=mx))]
 
 
@@ -216,6 +228,52 @@ def data_bytes(d):
     return b if d[0] == 0 else base64.b64decode(b)
 
 
+def block_line_spans(block):
+    """the lines of a block, terminator (\\n) included: [(start, end)]"""
+    res, st = [], 0
+    while st < len(block):
+        k = block.find(b"\n", st)
+        en = len(block) if k < 0 else k + 1
+        res.append((st, en))
+        st = en
+    return res
+
+
+def line_content_end(block, ls, le, crlf):
+    """end of the line's content: the line without its terminator (\\n, or \\r\\n under --crlf)"""
+    e = le
+    if e > ls and block[e - 1:e] == b"\n":
+        e -= 1
+        if crlf and e > ls and block[e - 1:e] == b"\r":
+            e -= 1
+    return e
+
+
+def expected_multi_line_records(matches, crlf):
+    """from the JSON match messages [(lines, [(text, start, end)])] of a multi-line search: the number of
+    --only-matching records (one per line on whose content a submatch has a byte) and of --vimgrep records (one per
+    submatch that touches a line), as the theorems only_matching_multi_line_records / per_match_multi_line_event_records
+    state them; plus what the generated case exercised"""
+    r = dict(o=0, pm=0, zero_o=0, zero_pm=0, spanning=0, adjacent=0, subs=0)
+    for l, subs in matches:
+        block = data_bytes(l)
+        lines = block_line_spans(block)
+        prev = None
+        for sm in subs:
+            ms, me = sm[1], sm[2]
+            pieces = sum(1 for ls, le in lines if max(ls, ms) < min(line_content_end(block, ls, le, crlf), me))
+            touched = sum(1 for ls, le in lines if ls < me and ms < le)
+            r["subs"] += 1
+            r["o"] += pieces
+            r["pm"] += 1 if touched else 0
+            r["zero_o"] += pieces == 0
+            r["zero_pm"] += touched == 0
+            r["spanning"] += pieces > 1
+            r["adjacent"] += prev is not None and prev == ms
+            prev = me
+    return r
+
+
 def check_relations(ctx, c, outs, where):
     """outs: {mode name: (out, per_file)} real outputs; the property oracle"""
     fl = c["flags"]
@@ -234,6 +292,7 @@ def check_relations(ctx, c, outs, where):
     Lset = parse_paths(as_bytes(outs["L"][0]))
     std = records_by_file(as_bytes(outs["std"][0]))
     std_o = records_by_file(as_bytes(outs["std_o"][0]))
+    std_pm = records_by_file(as_bytes(outs["std_pm"][0])) if "std_pm" in outs else None
     jd, order_ok = json_by_file(outs["json"][0])
     if not order_ok:
         v("JSON messages are not begin, matches/contexts, end per file")
@@ -298,6 +357,42 @@ def check_relations(ctx, c, outs, where):
                 if no != expect:
                     v("number of --only-matching records differs from the number of JSON submatches", file=f,
                       only_matching=no, json_submatches=nsub, d2=d2)
+            npm = len(std_pm.get(f, [])) if std_pm is not None else None
+            nosub_msgs = sum(1 for _, subs in je["matches"] if len(subs) == 0)
+            if multi and not nosub_msgs:
+                ex = expected_multi_line_records(je["matches"], bool(fl.get("crlf")))
+                no = len(std_o.get(f, []))
+                if where == "library" and ex["subs"]:
+                    feat = ctx.cov.setdefault("features", {})
+                    for k_, n_ in (("ml_o_files_with_submatches", 1), ("ml_o_submatches", ex["subs"]),
+                                   ("ml_o_records_compared", no), ("ml_o_spanning_submatches", ex["spanning"]),
+                                   ("ml_o_adjacent_submatches", ex["adjacent"]),
+                                   ("ml_o_submatches_without_record", ex["zero_o"]),
+                                   ("ml_pm_records_compared", npm or 0),
+                                   ("ml_pm_submatches_without_record", ex["zero_pm"])):
+                        feat[k_] = feat.get(k_, 0) + int(n_)
+                if no != ex["o"]:
+                    v("multi-line --only-matching: the number of records is not the number of (submatch, line) pairs "
+                      "where the submatch has a byte on the line's content (theorem only_matching_multi_line_records)",
+                      file=f, only_matching=no, expected=ex["o"], json_submatches=nsub)
+                elif ex["zero_o"] and spans_lines:
+                    ctx.known(KNOWN_MLOEMPTY, "%s pattern=%r file=%r flags=%r: -o records=%d submatches=%d"
+                              % (where, c["pattern"], data, fl, no, nsub))
+                if npm is not None:
+                    if npm != ex["pm"]:
+                        v("multi-line --vimgrep: the number of records is not the number of submatches that touch a "
+                          "line (theorem per_match_multi_line_event_records)", file=f, vimgrep=npm, expected=ex["pm"],
+                          json_submatches=nsub)
+                    elif ex["zero_pm"]:
+                        # observation outside the property (C10 does not name --vimgrep): an empty submatch at a line
+                        # start gets no record; the expected count above already is what the proved model says
+                        feat = ctx.cov.setdefault("features", {})
+                        feat[OBS_MLPMEMPTY] = feat.get(OBS_MLPMEMPTY, 0) + 1
+            elif not multi and npm is not None and npm != nsub + nosub_msgs:
+                # line-oriented per-match output: one record per submatch (theorem per_match_records of C09); a
+                # matching line without submatch (D2) is printed once
+                v("--vimgrep: the number of records differs from the number of JSON submatches", file=f, vimgrep=npm,
+                  json_submatches=nsub, d2=d2)
             if je["end"] is not None and je["end"][5] != nsub:
                 v("JSON end.stats.matches differs from the submatches reported", file=f)
         # files-with-matches / files-without-match / quiet, all from the same counter
@@ -460,6 +555,7 @@ def cli_outputs(c, tree, extra):
     res["q_stats"] = run(["-q", "--stats"])
     res["std"] = run(["--no-heading", "-n"])
     res["std_o"] = run(["--no-heading", "-n", "-o"])
+    res["std_pm"] = run(["--no-heading", "-n", "--vimgrep"])
     res["std_stats"] = run(["--no-heading", "-n", "--stats"])
     res["count_stats"] = run(["-c", "--include-zero", "--stats"])
     res["json"] = run(["--json"])
@@ -501,7 +597,7 @@ def check_cli(ctx, c, lib_outs):
     def v(what, **kw):
         bad.append((what, kw))
     # 1. the CLI is the library printers (validates harness/src/rgcfg.rs and the kind mapping of hiargs.rs::printer)
-    for name in ("count", "cm", "l", "L", "std", "std_o"):
+    for name in ("count", "cm", "l", "L", "std", "std_o", "std_pm"):
         lib = lib_outs["count" if (name == "cm" and fl.get("invert")) else name]   # -v --count-matches is -v --count
         if r[name][1] != as_bytes(lib[0]):
             v("rg output differs from the library printer for mode " + name,
@@ -634,7 +730,7 @@ def check_cli(ctx, c, lib_outs):
           library=len(lib_outs["json"][0]))
     # 5. the cross-mode relations on the CLI outputs themselves
     cli_view = dict(lib_outs)
-    for name in ("cm", "l", "L", "std", "std_o"):
+    for name in ("cm", "l", "L", "std", "std_o", "std_pm"):
         cli_view[name] = (r[name][1], lib_outs[name][1])
     cli_view["count"] = (r["count"][1], lib_outs["count"][1])
     check_relations(ctx, c, cli_view, "cli")
@@ -674,6 +770,16 @@ def corpus():
         mk(r"a\nb", U, [b"a\nb\na\nb\nc\n", b"a\n"]),
         mk(r"(?s).+", U, [b"a\nb\n"]),
         mk(r"\n", U, [b"\n\n\n"]),
+        # multi-line -o / --vimgrep records: a submatch spanning two lines, adjacent submatches, both, with CRLF;
+        # empty matches at line starts (observation MultiLinePerMatchDropsEmptyMatchAtLineStart)
+        mk(r"c\nd|e", U, [b"abc\nde\n"]),
+        mk(r"a|b|\n", U, [b"ab\nba\n", b"ab"]),
+        mk(r"b\nb|a", U, [b"ab\nba\n", b"ab\nb"]),
+        mk(r"b\r\nb|a", dict(U, crlf=1), [b"ab\r\nba\r\n"]),
+        mk(r"b\s+b|a", dict(U, crlf=1), [b"ab\r\n\r\nba\r\n"]),
+        mk(r"(?s)b.+b", U, [b"ab\nxx\n\nba\n"]),
+        mk(r"(?:x|\n)*", U, [b"abc\nde\n"]),
+        mk(r"(?:x|\n)*", U, [b"abc\nde\n"], mx=1),
         # a multi-line match whose last assertion looks past the reported lines, near and far from the end of input
         mk(r"foo\n\b", U, [b"xx foo\nbar\n", b"xx foo\nbar\n" + b"z z\n" * 40, b"foo\n"]),
         mk(r"(?m)a\n^", U, [b"a\nb", b"a\n" + b"y" * 130 + b"\n"]),
